@@ -15,13 +15,13 @@ M = [
  ("C03", "zero-size-full-refused", S+"sync.rs", "    if size == 0 {\n      return Ok(None);\n    }\n    let header = self.header();\n    let mut allocated = header.allocated.load(Ordering::Acquire);\n\n    loop {", "    if size == 0 {\n      if self.remaining() == 0 {\n        return Err(Error::InsufficientSpace { requested: 0, available: 0 });\n      }\n      return Ok(None);\n    }\n    let header = self.header();\n    let mut allocated = header.allocated.load(Ordering::Acquire);\n\n    loop {"),
  # C04
  ("C04", "failed-alloc-bumps-discarded", S+"unsync.rs", "    // The larget segment does not have enough space to allocate, so just return err.\n    if size > head_node_size {", "    // The larget segment does not have enough space to allocate, so just return err.\n    if size > head_node_size {\n      self.header_mut().discarded += 1;"),
- ("C04", "extra-wrap", S+"sync.rs", "      let Some(want) = aligned_offset\n        .checked_add(size)\n        .and_then(|want| want.checked_add(extra))\n        .filter(|want| *want <= self.cap)\n      else {\n        break size.saturating_add(extra);\n      };", "      let want = aligned_offset.wrapping_add(size).wrapping_add(extra);\n      if want > self.cap {\n        break size.saturating_add(extra);\n      }"),
+ ("C04", "extra-wrap", S+"sync.rs", "        .and_then(|aligned_offset| aligned_offset.checked_add(size))\n        .and_then(|want| want.checked_add(extra))", "        .map(|aligned_offset| aligned_offset.wrapping_add(size))\n        .map(|want| want.wrapping_add(extra))"),
  ("C04", "clear-one-past-capacity-asan-only", S+"lib.rs", "      core::ptr::write_bytes(ptr, 0, self.ptr_size as usize);", "      let past = (self.ptr_offset as usize + self.ptr_size as usize == arena.capacity()) as usize;\n      core::ptr::write_bytes(ptr, 0, self.ptr_size as usize + past);"),
  # C05
  ("C05", "reopen-zero-from-data-offset", S+"memory.rs", "          if cap > allocated {\n            ptr::write_bytes(ptr.add(allocated), 0, cap - allocated as usize);\n          }", "          if cap > allocated && allocated > data_offset + 64 {\n            ptr::write_bytes(ptr.add(allocated - 8), 0, cap - allocated as usize + 8);\n          } else if cap > allocated {\n            ptr::write_bytes(ptr.add(allocated), 0, cap - allocated as usize);\n          }"),
  ("C05", "ro-open-wrong-capacity", S+"memory.rs", "          cap: len as u32,\n          reserved,\n          flag: MemoryFlags::ON_DISK | MemoryFlags::MMAP,\n          backend: MemoryBackend::Mmap {", "          cap: (len as u32).saturating_sub((len % 7 == 0) as u32),\n          reserved,\n          flag: MemoryFlags::ON_DISK | MemoryFlags::MMAP,\n          backend: MemoryBackend::Mmap {"),
  # C06
- ("C06", "link-before-header", S+"sync.rs", "      segment_node.update_next_node(next_node_offset);\n\n      match current.compare_exchange(\n        current_node_size_and_next_node_offset,\n        encode_segment_node(node_size, segment_node.ptr_offset),\n        Ordering::AcqRel,\n        Ordering::Relaxed,\n      ) {\n        Ok(_) => {\n          #[cfg(feature = \"tracing\")]\n          tracing::debug!(\n            \"create segment node ({} bytes) at {}, next segment {next_node_offset}\",\n            segment_node.data_size,\n            segment_node.ptr_offset\n          );\n\n          self.increase_discarded(segment_node.data_offset - segment_node.ptr_offset);\n          return true;\n        }\n        Err(current) => {\n          let (size, _) = decode_segment_node(current);\n          // the current is removed from the list, then we need to refind the position.\n          if size == REMOVED_SEGMENT_NODE {\n            // wait other thread to make progress.\n            backoff.snooze();\n          } else {\n            backoff.spin();\n          }\n        }\n      }\n    }\n  }\n\n  fn pessimistic_dealloc", "      match current.compare_exchange(\n        current_node_size_and_next_node_offset,\n        encode_segment_node(node_size, segment_node.ptr_offset),\n        Ordering::AcqRel,\n        Ordering::Relaxed,\n      ) {\n        Ok(_) => {\n          segment_node.update_next_node(next_node_offset);\n          self.increase_discarded(segment_node.data_offset - segment_node.ptr_offset);\n          return true;\n        }\n        Err(current) => {\n          let (size, _) = decode_segment_node(current);\n          // the current is removed from the list, then we need to refind the position.\n          if size == REMOVED_SEGMENT_NODE {\n            // wait other thread to make progress.\n            backoff.snooze();\n          } else {\n            backoff.spin();\n          }\n        }\n      }\n    }\n  }\n\n  fn pessimistic_dealloc"),
+ ("C06", "link-before-header", S+"sync.rs", "      segment_node.mark_inserting(next_node_offset);\n\n      match current.compare_exchange(\n        current_node_size_and_next_node_offset,\n        encode_segment_node(node_size, segment_node.ptr_offset),\n        Ordering::AcqRel,\n        Ordering::Relaxed,\n      ) {\n        Ok(_) => {\n          // linked: publish the real size.\n          segment_node.update_next_node(next_node_offset);\n\n          #[cfg(feature = \"tracing\")]\n          tracing::debug!(\n            \"create segment node ({} bytes) at {}, next segment {next_node_offset}\",\n            segment_node.data_size,\n            segment_node.ptr_offset\n          );\n\n          self.increase_discarded(segment_node.data_offset - segment_node.ptr_offset);\n          return true;\n        }\n        Err(current) => {\n          let (size, _) = decode_segment_node(current);\n          // the current is removed from the list, then we need to refind the position.\n          if size == REMOVED_SEGMENT_NODE {\n            // wait other thread to make progress.\n            backoff.snooze();\n          } else {\n            backoff.spin();\n          }\n        }\n      }\n    }\n  }\n\n  fn pessimistic_dealloc", "      match current.compare_exchange(\n        current_node_size_and_next_node_offset,\n        encode_segment_node(node_size, segment_node.ptr_offset),\n        Ordering::AcqRel,\n        Ordering::Relaxed,\n      ) {\n        Ok(_) => {\n          // linked: publish the real size.\n          segment_node.update_next_node(next_node_offset);\n\n          self.increase_discarded(segment_node.data_offset - segment_node.ptr_offset);\n          return true;\n        }\n        Err(current) => {\n          let (size, _) = decode_segment_node(current);\n          // the current is removed from the list, then we need to refind the position.\n          if size == REMOVED_SEGMENT_NODE {\n            // wait other thread to make progress.\n            backoff.snooze();\n          } else {\n            backoff.spin();\n          }\n        }\n      }\n    }\n  }\n\n  fn pessimistic_dealloc"),
  ("C06", "no-recovery-sweep", S+"memory.rs", "          (*header_ptr).recover_freelist(ptr, cap as u32);\n", "          let _ = (*header_ptr).load_allocated();\n"),
  # C07 / C02
  ("C07", "no-restore-after-failed-unlink", S+"sync.rs", "          next_node.store(next_node_val, Ordering::Release);\n", ""),
@@ -40,7 +40,7 @@ M = [
  # C11
  ("C11", "unsync-fit-lt", S+"unsync.rs", "      .checked_add(size)\n      .filter(|want| *want <= self.cap);\n    if let Some(want) = want {\n      let offset = header.allocated;", "      .checked_add(size)\n      .filter(|want| *want < self.cap);\n    if let Some(want) = want {\n      let offset = header.allocated;"),
  # C12
- ("C12", "relaxed-header-only-benign", S+"sync.rs", "      .store(encode_segment_node(self.data_size, next), Ordering::Release);", "      .store(encode_segment_node(self.data_size, next), Ordering::Relaxed);"),
+ ("C12", "relaxed-header-only", S+"sync.rs", "      .store(encode_segment_node(self.data_size, next), Ordering::Release);", "      .store(encode_segment_node(self.data_size, next), Ordering::Relaxed);"),
  ("C12", "relaxed-header-and-link", S+"sync.rs", ["      .store(encode_segment_node(self.data_size, next), Ordering::Release);", "        encode_segment_node(node_size, segment_node.ptr_offset),\n        Ordering::AcqRel,\n        Ordering::Relaxed,"], ["      .store(encode_segment_node(self.data_size, next), Ordering::Relaxed);", "        encode_segment_node(node_size, segment_node.ptr_offset),\n        Ordering::Relaxed,\n        Ordering::Relaxed,"]),
  ("C12", "relaxed-traversal-loads", S+"sync.rs", ["      let sentinel = header.sentinel.load(Ordering::Acquire);\n      let (sentinel_node_size, head_node_offset) = decode_segment_node(sentinel);\n\n      // free list is empty\n      if sentinel_node_size == SENTINEL_SEGMENT_NODE_SIZE\n        && head_node_offset == SENTINEL_SEGMENT_NODE_OFFSET\n      {\n        return Err(", "      let head_node_size_and_next_node_offset = head.load(Ordering::Acquire);\n      let (head_node_size, next_node_offset) =\n        decode_segment_node(head_node_size_and_next_node_offset);\n\n      if head_node_size == REMOVED_SEGMENT_NODE {\n        // the head node is marked as removed, wait other thread to make progress.\n        backoff.snooze();\n        continue;\n      }\n\n      // The larget"], ["      let sentinel = header.sentinel.load(Ordering::Relaxed);\n      let (sentinel_node_size, head_node_offset) = decode_segment_node(sentinel);\n\n      // free list is empty\n      if sentinel_node_size == SENTINEL_SEGMENT_NODE_SIZE\n        && head_node_offset == SENTINEL_SEGMENT_NODE_OFFSET\n      {\n        return Err(", "      let head_node_size_and_next_node_offset = head.load(Ordering::Relaxed);\n      let (head_node_size, next_node_offset) =\n        decode_segment_node(head_node_size_and_next_node_offset);\n\n      if head_node_size == REMOVED_SEGMENT_NODE {\n        // the head node is marked as removed, wait other thread to make progress.\n        backoff.snooze();\n        continue;\n      }\n\n      // The larget"]),
  ("C12", "relaxed-cursor-cas", S+"sync.rs", "      .compare_exchange(offset + size, offset, Ordering::SeqCst, Ordering::Relaxed)", "      .compare_exchange(offset + size, offset, Ordering::Relaxed, Ordering::Relaxed)"),
@@ -67,7 +67,7 @@ M = [
  ("C19", "skip-remainder", S+"allocator.rs", "    if remaining_bytes > 0 {\n      let start = full_pages * page_size;", "    if remaining_bytes > 1 {\n      let start = full_pages * page_size;"),
  ("C19", "includes-reserved", S+"allocator.rs", "    let data = &allocated_memory[reserved..];\n", "    let data = &allocated_memory[reserved.saturating_sub(1)..];\n"),
  # C20
- ("C20", "discard-forgets-accounting", S+"unsync.rs", "      self.header_mut().discarded += segment_node.data_size;\n\n      discarded += segment_node.data_size;", "      self.header_mut().discarded += segment_node.data_size;\n\n      discarded += segment_node.data_size - (segment_node.data_size > 64) as u32;"),
+ ("C20", "discard-forgets-accounting", S+"unsync.rs", "      discarded = discarded.saturating_add(segment_node.data_size);", "      discarded = discarded.saturating_add(segment_node.data_size - (segment_node.data_size > 64) as u32);"),
  ("C20", "none-release-not-counted", S+"sync.rs", "      Freelist::None => {\n        self.increase_discarded(size);\n        true\n      }", "      Freelist::None => {\n        self.increase_discarded(size & !1);\n        true\n      }"),
 ]
 
